@@ -10,6 +10,12 @@ import (
 )
 
 func BuildSchemaValidation(schema *openapi3.SchemaRef, validationString string, fieldInterface string) {
+	// A reference shares its value with the referenced component (or has none yet): usage-site rules must not
+	// rewrite the shared model, and OpenAPI 3.0 allows no siblings next to $ref to hold them
+	if schema == nil || schema.Ref != "" || schema.Value == nil {
+		return
+	}
+
 	// Parse and apply validation rules from the Validator field
 	validationRules := strings.Split(validationString, ",")
 	for _, rule := range validationRules {
